@@ -175,8 +175,11 @@ def nums() -> int:
 # resolution of such a path fails - and has to fail the same way whatever was asked before (C10 only: the module does not load)
 NUMS = '''def masks() -> int:
 \tmask = 0b1010
+\thx = 16
 \tperm = 0o17
+\tfl = 1.5
 \tz = 1j
+\tdec = 7
 \treturn mask
 '''
 TREES_ONLY = {'shape_nums': NUMS}
